@@ -49,18 +49,43 @@ func collectChecks(n ast.Node, env map[string]string, funcs map[string]*ast.Func
 			if id, ok := x.Value.(*ast.Ident); ok && id.Name != "_" {
 				env2[id.Name] = pathOf(x.X, env) + "[]"
 			}
-			collectChecks(x.Body, env2, funcs, depth, out)
+			// statements in order: an `if <cond> { continue | return nil | break }` that is not an error
+			// check makes every later check of this loop body conditional (e.g. "skip disabled integrations")
+			for _, st := range x.Body.List {
+				if is, ok := st.(*ast.IfStmt); ok && !strings.Contains(src(is.Cond), "err != nil") && len(is.Body.List) > 0 {
+					skips := false
+					switch l := is.Body.List[len(is.Body.List)-1].(type) {
+					case *ast.BranchStmt:
+						skips = true
+					case *ast.ReturnStmt:
+						skips = len(l.Results) == 1 && src(l.Results[0]) == "nil"
+					}
+					if skips {
+						env2 = cloneEnv(env2)
+						env2["\x00cond"] = src(is.Cond)
+						continue
+					}
+				}
+				collectChecks(st, env2, funcs, depth, out)
+			}
 			return false
 		case *ast.CallExpr:
 			if id, ok := x.Fun.(*ast.Ident); ok {
 				if id.Name == "check" && len(x.Args) == 2 {
-					*out = append(*out, pathOf(x.Args[1], env))
+					p := pathOf(x.Args[1], env)
+					if c, ok := env["\x00cond"]; ok {
+						p += " ?only-unless(" + c + ")"
+					}
+					*out = append(*out, p)
 					return false
 				}
 				// a local recursive helper: func(inputs []dig.Input) { for _, inp := range inputs {...; self(inp.Components)} }
 				if fl, ok := funcs[id.Name]; ok && len(x.Args) == 1 && depth < 2 {
 					p := fl.Type.Params.List[0].Names[0].Name
 					env2 := map[string]string{p: pathOf(x.Args[0], env)}
+					if c, ok := env["\x00cond"]; ok {
+						env2["\x00cond"] = c
+					}
 					collectChecks(fl.Body, env2, funcs, depth+1, out)
 					return false
 				}
@@ -68,6 +93,14 @@ func collectChecks(n ast.Node, env map[string]string, funcs map[string]*ast.Func
 		}
 		return true
 	})
+}
+
+func cloneEnv(e map[string]string) map[string]string {
+	o := map[string]string{}
+	for k, v := range e {
+		o[k] = v
+	}
+	return o
 }
 
 type splice struct{ fn, format, arg string }
